@@ -1095,6 +1095,14 @@ class FnAnalysis:
                     if (p0 == a_s and p1 == c_s and o in ('Ge', 'Gt')) or (p0 == c_s and p1 == a_s and o in ('Le', 'Lt')):
                         s.status, s.reason = 'OK', 'dominating guard minuend >= subtrahend'
                         return
+            # relational: minuend - subtrahend >= 0 from linear forms and a dominating comparison
+            try:
+                d_ = self.diff_lower(a, c, b)
+            except RecursionError:
+                d_ = None
+            if d_ is not None and d_ >= 0:
+                s.status, s.reason = 'OK', 'minuend - subtrahend >= %d from a dominating linear comparison' % d_
+                return
             # len(param) - const : precondition
             ae = strip(a)
             if ae.k == 'call' and last(ae.name) == 'len' and strip(ae.args[0]).k == 'param' and rc[1] < INF:
@@ -1342,6 +1350,16 @@ class FnAnalysis:
                 o = p.op if truth else G.NEGOP[p.op]
                 if (p0 == xs and p1 == L and o in ('Le', 'Lt')) or (p0 == L and p1 == xs and o in ('Ge', 'Gt')):
                     return True
+        # relational: len(base) - x >= 0 from the linear forms of both and a dominating comparison
+        # (len(y[a..]) is len(y) - a, so `k <= len(ct[c1..])` follows from the guard `len(ct) > c1 + k`)
+        from .prov import simplify_slices
+        L_e = simplify_slices(E('call', 'len', [strip(base)], ty='usize'))
+        try:
+            d_ = self.diff_lower(L_e, x, b)
+        except RecursionError:
+            d_ = None
+        if d_ is not None and d_ >= 0:
+            return True
         return False
 
     def sym_lt(self, x, base, b):
